@@ -1,0 +1,184 @@
+//! C24: write access decisions (modify / create / delete / revive).
+//!
+//! `server::access` is crate-private. These wrappers build an `AccessControls` holding
+//! caller supplied profiles and call the real `modify_allow_operation`,
+//! `create_allow_operation` and `delete_allow_operation`, or install the profiles into an
+//! open (never committed) write transaction so that the real `modify`, `create`, `delete`
+//! and `revive_recycled` run against them. Everything here only *calls* server code.
+
+use crate::entry::Eattrs;
+use crate::event::{CreateEvent, DeleteEvent, ModifyEvent};
+use crate::filter::{Filter, FilterValid};
+use crate::modify::{ModifyList, ModifyValid};
+use crate::prelude::*;
+use crate::repl::entry::EntryChangeState;
+use crate::server::access::profiles::{
+    AccessControlCreate, AccessControlDelete, AccessControlModify, AccessControlProfile,
+    AccessControlReceiver, AccessControlSearch, AccessControlTarget,
+};
+use crate::server::access::{
+    AccessControls, AccessControlsTransaction, AccessControlsWriteTransaction,
+};
+use hashbrown::HashMap;
+use std::collections::BTreeSet;
+use std::sync::Arc;
+
+#[derive(Debug, Clone)]
+pub enum HookReceiver {
+    None,
+    Group(BTreeSet<Uuid>),
+    EntryManager,
+}
+
+/// One profile. modify: s1 = presattrs, s2 = remattrs, c1 = pres_classes, c2 = rem_classes;
+/// create: s1 = attrs, c1 = classes; delete: sets unused.
+#[derive(Debug, Clone)]
+pub struct HookAcp {
+    pub receiver: HookReceiver,
+    pub target: Option<Filter<FilterValid>>,
+    pub s1: Vec<Attribute>,
+    pub s2: Vec<Attribute>,
+    pub c1: Vec<String>,
+    pub c2: Vec<String>,
+}
+
+#[derive(Debug, Clone, Default)]
+pub struct HookAcps {
+    pub modify: Vec<HookAcp>,
+    pub create: Vec<HookAcp>,
+    pub delete: Vec<HookAcp>,
+    pub sync: Vec<(Uuid, BTreeSet<Attribute>)>,
+    /// search profiles (s1 = attrs); only used by `install_in_txn`.
+    pub search: Vec<HookAcp>,
+}
+
+fn profile(n: usize, kind: &str, a: &HookAcp) -> AccessControlProfile {
+    AccessControlProfile::verif_c24_new(
+        format!("verif_{kind}_{n}"),
+        Uuid::from_u128(0xC24_0000_0000 + n as u128),
+        match &a.receiver {
+            HookReceiver::None => AccessControlReceiver::None,
+            HookReceiver::Group(g) => AccessControlReceiver::Group(g.clone()),
+            HookReceiver::EntryManager => AccessControlReceiver::EntryManager,
+        },
+        match &a.target {
+            Some(f) => AccessControlTarget::Scope(f.clone()),
+            None => AccessControlTarget::None,
+        },
+    )
+}
+
+fn install(acw: &mut AccessControlsWriteTransaction<'_>, acps: &HookAcps) {
+    let modify = acps
+        .modify
+        .iter()
+        .enumerate()
+        .map(|(n, a)| AccessControlModify {
+            acp: profile(n, "modify", a),
+            presattrs: a.s1.clone(),
+            remattrs: a.s2.clone(),
+            pres_classes: a.c1.iter().map(|s| s.as_str().into()).collect(),
+            rem_classes: a.c2.iter().map(|s| s.as_str().into()).collect(),
+        })
+        .collect();
+    let create = acps
+        .create
+        .iter()
+        .enumerate()
+        .map(|(n, a)| AccessControlCreate {
+            acp: profile(n, "create", a),
+            classes: a.c1.iter().map(|s| s.as_str().into()).collect(),
+            attrs: a.s1.clone(),
+        })
+        .collect();
+    let delete = acps
+        .delete
+        .iter()
+        .enumerate()
+        .map(|(n, a)| AccessControlDelete {
+            acp: profile(n, "delete", a),
+        })
+        .collect();
+    acw.update_modify(modify).expect("update_modify");
+    acw.update_create(create).expect("update_create");
+    acw.update_delete(delete).expect("update_delete");
+    let sync: HashMap<Uuid, BTreeSet<Attribute>> = acps.sync.iter().cloned().collect();
+    acw.update_sync_agreements(sync);
+}
+
+/// `AccessControls::modify_allow_operation` with exactly the given profiles.
+pub fn modify_allowed(
+    acps: &HookAcps,
+    me: &ModifyEvent,
+    entries: &[Arc<EntrySealedCommitted>],
+) -> Result<bool, OperationError> {
+    let ac = AccessControls::default();
+    let mut acw = ac.write();
+    install(&mut acw, acps);
+    acw.modify_allow_operation(me, entries)
+}
+
+/// `AccessControls::create_allow_operation` with exactly the given profiles.
+pub fn create_allowed(
+    acps: &HookAcps,
+    ce: &CreateEvent,
+    entries: &[Entry<EntryInit, EntryNew>],
+) -> Result<bool, OperationError> {
+    let ac = AccessControls::default();
+    let mut acw = ac.write();
+    install(&mut acw, acps);
+    acw.create_allow_operation(ce, entries)
+}
+
+/// `AccessControls::delete_allow_operation` with exactly the given profiles.
+pub fn delete_allowed(
+    acps: &HookAcps,
+    de: &DeleteEvent,
+    entries: &[Arc<EntrySealedCommitted>],
+) -> Result<bool, OperationError> {
+    let ac = AccessControls::default();
+    let mut acw = ac.write();
+    install(&mut acw, acps);
+    acw.delete_allow_operation(de, entries)
+}
+
+/// Replace the modify / create / delete profiles and sync agreements of this write
+/// transaction (and the search profiles when some are given). The change lives only in the
+/// transaction.
+pub fn install_in_txn(qs_write: &mut QueryServerWriteTransaction<'_>, acps: &HookAcps) {
+    let acw = qs_write.verif_c24_accesscontrols_mut();
+    install(acw, acps);
+    if !acps.search.is_empty() {
+        let search = acps
+            .search
+            .iter()
+            .enumerate()
+            .map(|(n, a)| AccessControlSearch {
+                acp: profile(n, "search", a),
+                attrs: a.s1.iter().cloned().collect(),
+            })
+            .collect();
+        acw.update_search(search).expect("update_search");
+    }
+}
+
+/// A sealed, committed entry holding exactly the attributes of `e`, without schema
+/// validation (what the test-only `into_sealed_committed` does).
+pub fn seal(e: &Entry<EntryInit, EntryNew>, uuid: Uuid) -> Arc<EntrySealedCommitted> {
+    let attrs: Eattrs = e
+        .attr_keys()
+        .filter_map(|k| e.get_ava_set(k).map(|vs| (k.clone(), vs.clone())))
+        .collect();
+    let cid = Cid {
+        ts: Duration::from_secs(0),
+        s_uuid: Uuid::from_u128(0),
+    };
+    let ecstate = EntryChangeState::new_without_schema(&cid, &attrs);
+    Arc::new(Entry::verif_c12_build(uuid, ecstate, attrs, 1))
+}
+
+/// A modify list marked valid without schema validation (what the test-only
+/// `ModifyList::new_valid_list` does).
+pub fn valid_modlist(mods: Vec<Modify>) -> ModifyList<ModifyValid> {
+    ModifyList::verif_c24_valid(mods)
+}
